@@ -32,14 +32,35 @@ def _model_excerpt(m, limit=40):
     return out
 
 
+def _flat(xs):
+    for x in xs:
+        if isinstance(x, (list, tuple)):
+            yield from _flat(x)
+        else:
+            yield x
+
+
 def _check(i):
     ob = _OBLS[i]
     t = time.time()
-    s = z3.Solver()
-    s.set('timeout', _TIMEOUT_MS)
-    s.add(ob.hyps)
-    s.add(z3.Not(ob.goal))
     try:
+        if getattr(ob, 'isolated', False):
+            # A lemma of the sequence theory is solved in a z3 context of its own.  In the shared context the solver's search order depends on the numbering of the
+            # terms, i.e. on everything built or solved before in this process (which chunks of the pool this worker happened to get first), and for such a lemma that
+            # turned 0.06 s into 9 s (DESIGN 8.18); in a fresh context the query -- and the time it takes -- is the same on every run, for every property.
+            # Not done for every obligation: creating a context costs ~30 ms of mostly system time, and with twenty checks side by side that alone pushed
+            # millisecond queries to seconds.
+            ctx = z3.Context()
+            s = z3.Solver(ctx=ctx)
+            s.set('timeout', _TIMEOUT_MS)
+            for h in _flat(ob.hyps):
+                s.add(h.translate(ctx) if z3.is_expr(h) else z3.BoolVal(bool(h), ctx))
+            s.add(z3.Not(ob.goal).translate(ctx))
+        else:
+            s = z3.Solver()
+            s.set('timeout', _TIMEOUT_MS)
+            s.add(ob.hyps)
+            s.add(z3.Not(ob.goal))
         r = s.check()
     except z3.Z3Exception as e:
         return i, 'unknown', (time.time() - t) * 1000, None, f'z3 exception {e}', None
@@ -68,6 +89,45 @@ def _second_solver(smt2, timeout_s):
     except Exception:
         return 'unknown'
     finally:
+        os.unlink(path)
+
+
+def _portfolio(smt2, timeout_s, seeds=(1, 2, 3, 4)):
+    """Last resort for a query both builds left open within the budget: the same query, both builds, several random seeds, side by side; the first definite
+    answer wins.  z3's sequence solver is erratic (identical query: 0.1 s with one seed, > 60 s with another), so a time-out is weak evidence of hardness.
+    An answer found here is as good as any other answer of that build (a seed changes the search order, not the logic); no answer leaves the obligation undecided."""
+    with tempfile.NamedTemporaryFile('w', suffix='.smt2', delete=False) as f:
+        f.write(smt2)
+        path = f.name
+    procs = []
+    try:
+        for exe in ('/usr/bin/z3', 'z3-new'):
+            for sd in seeds:
+                try:
+                    procs.append((f'{exe} seed={sd}', subprocess.Popen([exe, f'-T:{int(timeout_s)}', f'smt.random_seed={sd}', f'sat.random_seed={sd}', path],
+                                                                        stdout=subprocess.PIPE, stderr=subprocess.DEVNULL, text=True)))
+                except OSError:
+                    pass
+        deadline = time.time() + timeout_s + 5
+        live = list(procs)
+        while live and time.time() < deadline:
+            for tag, p in list(live):
+                if p.poll() is not None:
+                    live.remove((tag, p))
+                    out = (p.stdout.read() or '').strip().splitlines()
+                    r = out[0].strip() if out else 'unknown'
+                    if r in ('sat', 'unsat'):
+                        return r, tag
+            time.sleep(0.05)
+        return 'unknown', None
+    finally:
+        for _, p in procs:
+            if p.poll() is None:
+                p.kill()
+            try:
+                p.wait(timeout=5)
+            except Exception:
+                pass
         os.unlink(path)
 
 
@@ -117,6 +177,13 @@ def discharge(obls, timeout_ms=10000, jobs=None, cross_check=False):
             ob.result = 'failed'
             ob.backend = '/usr/bin/z3-4.8.12 (after unknown from z3 wheel)'
             ob.model = {'note': 'model not extracted from second solver'}
+        else:
+            r3, tag = _portfolio(smt2, max(30, 3 * timeout_ms // 1000))
+            if r3 in ('sat', 'unsat'):
+                ob.result = 'discharged' if r3 == 'unsat' else 'failed'
+                ob.backend = f'{tag} (seed portfolio, after unknown from z3 wheel and /usr/bin/z3 within {timeout_ms} ms)'
+                if r3 == 'sat':
+                    ob.model = {'note': 'model not extracted from the portfolio solver'}
     if cross_check:
         todo = [(i, _smt2(ob), max(10, timeout_ms // 1000)) for i, ob in enumerate(obls) if ob.result in ('discharged', 'failed')]
         ctx = mp.get_context('fork')
